@@ -1046,7 +1046,9 @@ def gen_dehb_sched_spec(rng):
     return dict(mode=rng.choice(["min", "max"]), grace_period=rng.choice([1, 1, 2]), max_resource=rng.choice([4, 9, 9, 16, 27]),
                 reduction_factor=rng.choice([2, 3, 3, 4]), brackets=rng.choice([None, None, 1, 2]),
                 pfail=rng.choice([0.0, 0.1, 0.3, 0.5]), workers=rng.choice([1, 2, 4]), steps=rng.randint(40, 160),
-                seed=rng.randrange(1 << 30), pause_resume=rng.choice([True, False]))
+                seed=rng.randrange(1 << 30), pause_resume=rng.choice([True, False]),
+                # a finite space runs out of new configs: suggest answers None and the job is reported as failed
+                finite_space=rng.choice([None, None, None, 6, 12, 24]))
 
 
 def run_dehb_sched(ctx, replay):
@@ -1055,7 +1057,7 @@ def run_dehb_sched(ctx, replay):
     job/result log is checked by LogChecker (rung sizes, levels, offsets, no slot twice, new bracket only when no free slot)."""
     import random as _random
     from syne_tune.backend.trial_status import Trial
-    from syne_tune.config_space import uniform
+    from syne_tune.config_space import uniform, randint, finrange
     from syne_tune.optimizer.schedulers.synchronous.hyperband_impl import GeometricDifferentialEvolutionHyperbandScheduler
     if replay and replay.get("kind") == "dehb_sched":
         specs = [replay["spec"]]
@@ -1071,9 +1073,11 @@ def run_dehb_sched(ctx, replay):
                   random_seed=sp["seed"] % 1000, support_pause_resume=sp["pause_resume"])
         if sp["brackets"] is not None:
             kw["brackets"] = sp["brackets"]
+        fs = sp.get("finite_space")
+        space = {"x": uniform(0, 1), "y": uniform(0, 1)} if not fs else {
+            "x": finrange(0.0, 2.0, max(2, fs // 3), cast_int=True), "y": randint(0, 2)}
         try:
-            sch = GeometricDifferentialEvolutionHyperbandScheduler(
-                {"x": uniform(0, 1), "y": uniform(0, 1), "epochs": sp["max_resource"]}, **kw)
+            sch = GeometricDifferentialEvolutionHyperbandScheduler(dict(space, epochs=sp["max_resource"]), **kw)
         except AssertionError:
             ctx.h("dehb_sched_constructor", "rejected")
             continue
@@ -1081,7 +1085,7 @@ def run_dehb_sched(ctx, replay):
         rec = RecordingManager(sch.bracket_manager)
         sch.bracket_manager = rec
         chk = LogChecker(rss, sp["mode"], dehb=True)
-        running, trials, n, nfail, broken = {}, {}, 0, 0, None
+        running, trials, n, nfail, broken, nnone = {}, {}, 0, 0, None, 0
         for _ in range(sp["steps"]):
             if len(running) < sp["workers"] and (not running or rng.random() < 0.6):
                 try:
@@ -1090,6 +1094,7 @@ def run_dehb_sched(ctx, replay):
                     broken = ("suggest", e)
                     break
                 if sg is None:
+                    nnone += 1
                     continue
                 if sg.spawn_new_trial_id:
                     t = n
@@ -1119,6 +1124,8 @@ def run_dehb_sched(ctx, replay):
         ctx.count(("dehb_sched", sp), nontrivial=chk.stats["rungs_completed"] >= 1 and nfail >= 1)
         ctx.h("dehb_sched_brackets", sp["brackets"])
         ctx.h("dehb_sched_failures", min(nfail, 5))
+        ctx.h("dehb_sched_suggest_none", min(nnone, 5))
+        ctx.h("dehb_sched_space", "finite" if fs else "continuous")
         ctx.h("dehb_sched_rungs_completed", min(chk.stats["rungs_completed"], 6))
         case = dict(kind="dehb_sched", spec=sp)
         if broken is not None:
